@@ -100,7 +100,7 @@ theorem deleteRoot_weak {t : Nat} (ht : 2 ≤ t) (always : Bool) (k : Nat) {n : 
         unfold delete
         simp [Node.elts, searchInNode_nil, delPrep_single_minimal k hmin]
     simp only [deleteRoot, hd]
-    exact ⟨rfl, rfl, c, rfl, hmin⟩
+    exact ⟨trivial, trivial, c, rfl, hmin⟩
   · right
     have hpos : h ≠ 0 → 1 ≤ n.elts.length ∨ ∀ c ∈ n.children, c.elts.length ≠ minKeys t := by
       intro h0
@@ -144,10 +144,10 @@ theorem deleteRoot_weak {t : Nat} (ht : 2 ≤ t) (always : Bool) (k : Nat) {n : 
       simp [collapseRoot, Node.isLeaf]
     by_cases hc : (always || (lookup (flat n) k).isSome) = true
     · simp only [hc, if_true]
-      refine ⟨⟨⟨h', c1⟩, c3, ?_⟩, by rw [c2, hflat], rfl, fun _ => c4, Or.inr c4, hcleaf⟩
+      refine ⟨⟨⟨h', c1⟩, c3, ?_⟩, by rw [c2, hflat], trivial, fun _ => c4, Or.inr c4, hcleaf⟩
       rw [c2, hflat]; exact delKey_sorted _ hw.sorted
     · simp only [hc, Bool.false_eq_true, if_false]
-      refine ⟨⟨⟨h, hshape⟩, htop, ?_⟩, hflat, rfl, ?_, Or.inl hlo, hleaf⟩
+      refine ⟨⟨⟨h, hshape⟩, htop, ?_⟩, hflat, trivial, ?_, Or.inl hlo, hleaf⟩
       · rw [hflat]; exact delKey_sorted _ hw.sorted
       · intro hor
         exfalso
